@@ -3211,6 +3211,21 @@ fn convert_group<'a>(pair: Pair<'a, Rule>, input: &'a str) -> Result<ast::Group<
   })
 }
 
+/// Is there a comma in the whitespace/comment gap that follows a group entry?
+fn gap_has_comma(gap: &str) -> bool {
+  let mut in_comment = false;
+  for c in gap.chars() {
+    if in_comment {
+      in_comment = c != '\n';
+    } else if c == ';' {
+      in_comment = true;
+    } else if c == ',' {
+      return true;
+    }
+  }
+  false
+}
+
 /// Convert group choice
 fn convert_group_choice<'a>(
   pair: Pair<'a, Rule>,
@@ -3221,19 +3236,35 @@ fn convert_group_choice<'a>(
 
   let mut group_entries = Vec::new();
 
-  for inner in pair.into_inner() {
-    if inner.as_rule() == Rule::group_entry {
-      let entry = convert_group_entry(inner, input)?;
-      group_entries.push((
-        entry,
-        ast::OptionalComma {
-          optional_comma: false,
-          #[cfg(feature = "ast-comments")]
-          trailing_comments: None,
-          _a: core::marker::PhantomData,
-        },
-      ));
-    }
+  // The optional commas are anonymous in the grammar: recover them from the
+  // text between one entry and the next (or the end of the group choice), so
+  // that printing the AST keeps the entries separated as they were written
+  let choice_end = pair.as_span().end();
+  let entry_pairs: Vec<Pair<'a, Rule>> = pair
+    .into_inner()
+    .filter(|inner| inner.as_rule() == Rule::group_entry)
+    .collect();
+  let entry_bounds: Vec<(usize, usize)> = entry_pairs
+    .iter()
+    .map(|p| (p.as_span().start(), p.as_span().end()))
+    .collect();
+
+  for (idx, inner) in entry_pairs.into_iter().enumerate() {
+    let gap_end = entry_bounds
+      .get(idx + 1)
+      .map(|(start, _)| *start)
+      .unwrap_or(choice_end);
+    let optional_comma = gap_has_comma(&input[entry_bounds[idx].1..gap_end]);
+    let entry = convert_group_entry(inner, input)?;
+    group_entries.push((
+      entry,
+      ast::OptionalComma {
+        optional_comma,
+        #[cfg(feature = "ast-comments")]
+        trailing_comments: None,
+        _a: core::marker::PhantomData,
+      },
+    ));
   }
 
   Ok(ast::GroupChoice {
